@@ -42,6 +42,10 @@ pub enum Op {
     /// dependencies' files in the store carry *now* (or dropped): the most adversarial
     /// single-field alteration, it makes a stale core look fresh
     Repin { p: usize, drop: bool },
+    /// a copy of one generation of p's core appears in the store under another package name
+    /// (top-level `package` field rewritten, optionally the embedded interface's too) and is
+    /// offered to every later link in addition to the regular cores
+    Relabel { p: usize, pick: u64 },
 }
 
 const DIRS: [&str; 2] = ["store", "store0"];
@@ -87,6 +91,8 @@ struct World<'a> {
     findings: Vec<Finding>,
     st: Stats,
     op_index: usize,
+    /// relabelled cores (paths) offered to every link in addition to the requested ones
+    extra_cores: Vec<(String, u32)>,
 }
 
 fn art_path(dir: u8, name: &str, core: bool) -> String {
@@ -362,9 +368,16 @@ impl<'a> World<'a> {
         for (d, p) in cores {
             paths.push(art_path(*d, &self.name(*p), true));
         }
-        let existing: Vec<String> = paths.iter().filter(|p| self.sb.exists(p)).cloned().collect();
+        let mut existing: Vec<String> = paths.iter().filter(|p| self.sb.exists(p)).cloned().collect();
         if existing.is_empty() {
             return;
+        }
+        // (each stray core is offered to the next two links, then it is gone)
+        for (x, left) in self.extra_cores.iter_mut() {
+            if *left > 0 && self.sb.exists(x) && !existing.contains(x) {
+                existing.push(x.clone());
+                *left -= 1;
+            }
         }
         // model view of what is offered
         let mut infos: Vec<Option<ArtInfo>> = Vec::new();
@@ -406,11 +419,29 @@ impl<'a> World<'a> {
             }
         }
         let consistent = bad.is_empty() && !dup && has_main && inconsistent.is_none();
-        self.sb.remove("linked");
+        // the output of an earlier link stays where it is: a link that succeeds must replace it
+        let had_output = self.sb.exists("linked/main.go");
         let spec = ProcSpec { entropy, readdir: entropy, ..Default::default() };
         let mut order = Prng::new(entropy);
         let res = ops::goml(self.sb, &spec, ops::link_args(self.sb, &existing, "linked/main.go", &mut order));
         self.st.procs += 1;
+        if res.exit == Exit::Ok && had_output {
+            self.sb.remove("linkfresh");
+            let mut order = Prng::new(entropy);
+            let fresh = ops::goml(self.sb, &spec, ops::link_args(self.sb, &existing, "linkfresh/main.go", &mut order));
+            self.st.procs += 1;
+            if fresh.exit == Exit::Ok {
+                if self.sb.read("linked/main.go") != self.sb.read("linkfresh/main.go") {
+                    self.finding(
+                        "successful-link-left-other-bytes",
+                        json!({"class": "successful-link-left-other-bytes"}),
+                        "C15: `link` reported success but the output file does not hold what the same link writes to a fresh path (the program of an earlier link was kept)".to_string(),
+                    );
+                } else {
+                    *self.st.probes.entry("relink_over_existing_output_compared_with_fresh_output").or_insert(0) += 1;
+                }
+            }
+        }
         if let Exit::Panicked(m) = &res.exit {
             self.st.anomalies.push(format!("link panicked: {m}"));
         }
@@ -731,6 +762,38 @@ impl<'a> World<'a> {
                     }
                 }
             }
+            Op::Relabel { p, pick } => {
+                let name = self.name(*p);
+                let path = art_path(0, &name, true);
+                let Some(gens) = self.generations.get(&path).cloned() else { return };
+                if gens.is_empty() {
+                    return;
+                }
+                let g = &gens[(*pick as usize) % gens.len()];
+                if self.genuine(g).is_none() {
+                    return;
+                }
+                let Ok(mut doc) = serde_json::from_slice::<Value>(g) else { return };
+                let newname = format!("{name}Old");
+                if doc.get("package").and_then(|x| x.as_str()) != Some(name.as_str()) {
+                    return;
+                }
+                doc["package"] = Value::String(newname.clone());
+                let both = (*pick >> 20) % 3 == 0;
+                if both {
+                    if let Some(i) = doc.get_mut("interface") {
+                        i["package"] = Value::String(newname.clone());
+                    }
+                }
+                let text = serde_json::to_string_pretty(&doc).unwrap();
+                let np = art_path(0, &newname, true);
+                self.sb.write(&np, text.as_bytes());
+                self.reasons.insert(sha(text.as_bytes()), format!("field:/package:relabelled{}", if both { "-with-interface" } else { "" }));
+                self.extra_cores.retain(|(x, _)| *x != np);
+                self.extra_cores.push((np.clone(), 2));
+                *self.st.fired.entry("storage:relabelled-core-offered-in-addition".into()).or_insert(0) += 1;
+                self.st.log.push(format!("relabel: a generation of {path} appears as {np}"));
+            }
             Op::PowerLoss { pick } => {
                 let mut pr = Prng::new(*pick);
                 let lw = self.last_written.clone();
@@ -875,7 +938,13 @@ pub fn gen_history(p: &mut Prng, proj: &Project, len: usize, faults_on: &[bool; 
                 1 => Op::FieldCorrupt { dir, p: pk, core, pick: p.next_u64() },
                 2 => Op::ForeignVersion { dir, p: pk, core, pick: p.next_u64() },
                 3 => Op::StaleRestore { p: pk, core, pick: p.next_u64() },
-                4 => Op::Swap { a: pk, b: p.usize(n), core },
+                4 => {
+                    if p.chance(1, 2) {
+                        Op::Swap { a: pk, b: p.usize(n), core }
+                    } else {
+                        Op::Relabel { p: pk, pick: p.next_u64() }
+                    }
+                }
                 5 => Op::PowerLoss { pick: p.next_u64() },
                 6 => {
                     if p.chance(1, 2) {
@@ -888,7 +957,7 @@ pub fn gen_history(p: &mut Prng, proj: &Project, len: usize, faults_on: &[bool; 
             }
         };
         // a fault is most interesting right before something reads the file
-        let is_fault = matches!(op, Op::Repin { .. } | Op::Corrupt { .. } | Op::FieldCorrupt { .. } | Op::ForeignVersion { .. } | Op::StaleRestore { .. } | Op::Swap { .. } | Op::PowerLoss { .. } | Op::ShadowDir { .. });
+        let is_fault = matches!(op, Op::Relabel { .. } | Op::Repin { .. } | Op::Corrupt { .. } | Op::FieldCorrupt { .. } | Op::ForeignVersion { .. } | Op::StaleRestore { .. } | Op::Swap { .. } | Op::PowerLoss { .. } | Op::ShadowDir { .. });
         ops.push(op);
         if is_fault && p.chance(2, 3) {
             if p.chance(1, 2) {
@@ -944,6 +1013,7 @@ fn new_world<'a>(sb: &'a Sandbox, proj: &Project) -> World<'a> {
         findings: Vec::new(),
         st: Stats { procs: 0, ops: 0, fired: BTreeMap::new(), probes: BTreeMap::new(), log: Vec::new(), anomalies: Vec::new() },
         op_index: 0,
+        extra_cores: Vec::new(),
     };
     let all: Vec<usize> = (0..w.proj.pkgs.len()).collect();
     w.write_sources(&all);
@@ -963,6 +1033,7 @@ pub fn run_history(sb: &Sandbox, proj: &Project, ops: &[Op], final_phase: bool) 
         // bounded liveness: after the faults stop, a clean rebuild of everything links and the
         // program prints what the current sources denote
         w.op_index = ops.len();
+        w.extra_cores.clear();
         let n = w.proj.pkgs.len();
         // first in place, over whatever the history left in the store (that is what a user
         // does: rebuild everything in dependency order, link); the shadowing directory goes
